@@ -10,7 +10,7 @@ TABLE = {
     "C31": dict(module="PathFs", cfg=None, cmd="pathfs-replay", level="model_checking",
                 rule="case = request path (absolute or relative, up to 3 (thorough 4) segments over 18 names: files, directories, '.', '..', 7 symlinks in and out of the work directory, a sibling directory whose name extends the work directory's name, a missing name); every request; non-trivial = the path exists"),
     "C40": dict(module="ValueEq", cfg="ValueEq.cfg", cmd="value-eq", level="model_checking",
-                rule="case = ordered triple of value shapes (34 shapes incl. NaN with two payloads, -0.0, permuted and nested maps); all 39 304 triples; non-trivial = first two are distinct shapes that compare equal"),
+                rule="case = ordered triple of value shapes (41 shapes incl. NaN with two payloads, -0.0, permuted and nested maps, maps with differing key sets whose odd key is Null); all 68 921 triples; non-trivial = first two are distinct shapes that compare equal"),
     "C42": dict(module="ForExpand", cfg="ForExpand.cfg", cmd="for-expand", level="model_checking",
                 rule="case = program with a (nested) top-level for block: ranges 0..3 incl/excl, single- and multi-declaration bodies; every program of the spec's grammar; non-trivial = expansion has more than 2 declarations"),
     "C46": dict(module="EventFile", cfg=None, cmd="event-file", level="model_checking",
